@@ -820,6 +820,37 @@ def inh_init_cases(rng, tier):
     return cases
 
 
+# ------------------------------------------------------------------ the module-level import block, every form
+
+IMPORT_FORMS = [
+    "import os", "import os.path", "import xml.etree.ElementTree", "import json as js", "import os.path as osp",
+    "import xml.etree.ElementTree as ET", "import collections.abc", "import os, sys", "import os.path, json as js2",
+    "from os import path", "from os import path as p2", "from collections import OrderedDict, deque as dq",
+    "from xml.etree import ElementTree", "from xml.etree.ElementTree import Element as El, SubElement",
+    "from collections.abc import Mapping as AbcMapping", "import importlib.util", "import email.mime.text as emt",
+    "from decimal import Decimal", "import decimal as dec", "import datetime as dtm", "from datetime import date, datetime as DT2",
+    "import logging.handlers", "from logging import handlers as lh",
+]
+
+
+def import_cases(rng, tier):
+    """the import block of the module copied into the stub (`_get_direct_imported_as_code`): plain, dotted, aliased,
+    aliased dotted, several names in one statement, from-imports with and without aliases — each form alone and in
+    random combinations, next to a Structure class (the whole .pyi must parse, whatever the imports look like)"""
+    st = lambda name, fields: {"kind": "struct", "name": name, "style": "annot", "bases": [{"b": "Structure"}],
+                               "fields": fields}
+    body = [st("IM", [{"name": "a", "ty": ["String"]}, {"name": "n", "ty": ["Integer"], "default": "1"}])]
+    cases = []
+    for f in IMPORT_FORMS:
+        cases.append({"suite": "stub", "mod": {"items": [{"kind": "raw", "src": f}] + json.loads(json.dumps(body))},
+                      "apd": True, "dflt": True, "seeds": [], "family": "imports:single"})
+    for k in range(10 if tier == "quick" else 120):
+        forms = rng.sample(IMPORT_FORMS, rng.randint(2, 6))
+        cases.append({"suite": "stub", "mod": {"items": [{"kind": "raw", "src": "\n".join(forms)}] + json.loads(json.dumps(body))},
+                      "apd": True, "dflt": True, "seeds": [1] if k % 5 == 0 else [], "family": "imports:mixed"})
+    return cases
+
+
 # ------------------------------------------------------------------ two bases declaring the same field name
 
 MI_KINDS = ["req", "opt", "dflt", "const"]
